@@ -269,6 +269,9 @@ def run(ctx):
         "coordinates are compared to 1e-9 relative (the library computes cos(k*pi/2) in floating point)",
         "aliasing pattern P1 is excluded from the exhaustive model by AliasGuard and checked by the witness run",
     ]
+    # the two-form contract at the edge of floating point (spec/C13X.tla): degenerate results, far points, extreme factors
+    from .. import c13x
+    c13x.run_stage(ctx, df, 400 if ctx.tier == "quick" else 6000)
     core.df_stage(ctx, df)   # mixed histories (spec/DF.tla): the clauses that come from this property's text
     return core.finish(ctx, rule=RULE, extra={"embeddings": [e.name for e in embs]})
 
